@@ -229,7 +229,10 @@ def _chain_calls(text, method):
             raise ExtractError('unsupported construct: closure shape in .%s(..)' % method)
         body = cm.group(2).strip()
         if body.startswith('{') and body.endswith('}'):
-            raise ExtractError('unsupported construct: block closure in .%s(..)' % method)
+            inner = body[1:-1].strip()
+            if ';' in mask(inner):
+                raise ExtractError('unsupported construct: block closure with statements in .%s(..)' % method)
+            body = inner
         base = ''.join(text[mm.start('base'):mm.end('base')].split())
         res.append((mm.start(), cb + 1, base, cm.group(1).replace(' ', ''), body, bool(mm.group('cp'))))
     return res
